@@ -189,7 +189,7 @@ pub fn run(ctx: &Ctx) -> i32 {
         salt: 0x0701_0000,
         nshards: 64,
         enumerated: &enumerated,
-        random_cases: tier.pick(3_000_000, 60_000_000),
+        random_cases: tier.pick(3_000_000, 240_000_000),
         build_random: &|e| {
             // random: valid first word classes are dense enough that uniform words reach them
             let v = e.below(5);
